@@ -29,7 +29,9 @@ FORMS = {
     'dir-str-sym': '<div v-foo="{M}"/>', 'attr-ns': '<div xlink:href="u" a:b={{v1}}/>', 'key-hyphen': '<div data-x="1" aria-label={{v1}}/>', 'text-only-ws': '<div>   </div>',
     'vslots-el': '<Foo v-slots=<b/>/>', 'dir-element': '<div v-foo=<b/> />', 'dir-fragment': '<div v-foo=<>x<i/></> />', 'show-fragment': '<div v-show=<>y</> />',
     'dir-ns-fragment': '<Foo v-foo:arg_m=<>z</> />', 'dir-camel-element': '<Foo vFoo_m=<b>{{v1}}</b> />', 'model-element': '<input v-model=<b/> />', 'model-fragment': '<Foo v-model=<>m</> />',
-    'models-element': '<Foo v-models=<b/> />', 'arg-nonstr': '<div v-foo:arg={{v1}}/>', 'ns-dir-suffix': '<div v-foo:a-b_c-d={{v1}}/>',
+    'models-element': '<Foo v-models=<b/> />',
+    'model-sum': '<input v-model={{v1 + v2}}/>', 'model-call': '<Foo v-model={{f1()}}/>', 'model-lit': '<Foo v-model={{1}}/>', 'model-arrow': '<input v-model={{() => v1}}/>', 'model-cond': '<Foo v-model={{v1 ? v2 : v3}}/>',
+    'model-this': '<Foo v-model={{this}}/>', 'model-optchain': '<Foo v-model={{v1?.x}}/>', 'models-sum': '<Foo v-models={{[[v1 + v2, "a"]]}}/>', 'model-paren-member': '<Foo v-model={{(v1.x)}}/>', 'model-index': '<Foo v-model={{v1[v2]}}/>', 'arg-nonstr': '<div v-foo:arg={{v1}}/>', 'ns-dir-suffix': '<div v-foo:a-b_c-d={{v1}}/>',
 }
 
 
@@ -115,6 +117,18 @@ def raw_is_js_text(ctx, s):
     return b_and(*rs)
 
 
+def _assignable(e):
+    e = denote.E(e)
+    for _ in range(8):
+        if e.variant in ('Ident', 'Member', 'SuperProp'):
+            return True
+        if e.variant in ('Paren', 'TsAs', 'TsNonNull', 'TsTypeAssertion', 'TsSatisfies'):
+            e = denote.E(e.fields[0].get('expr'))
+            continue
+        return False
+    return False
+
+
 def scan(ctx, program, jsx_spans=()):
     """-> (has_jsx, [conditions that must hold for the tree to print as a program])"""
     jsx = []
@@ -136,6 +150,9 @@ def scan(ctx, program, jsx_spans=()):
             if v.ty == 'PropName' and v.variant == 'Ident':
                 s = v.fields[0].get('sym')
                 conds.append(('an identifier-keyed member has an IdentifierName key', ident_name_ok(ctx, s), {'key': s}))
+            if v.ty == 'SimpleAssignTarget' and v.variant == 'Paren':
+                # `(expr) = value`: an early error unless expr is a reference (identifier / member / super property, TS wrappers aside)
+                conds.append(('a parenthesised assignment target is assignable', _assignable(v.fields[0].get('expr')), {'key': SStr.of(deref(v.fields[0].get('expr')).variant or '?')}))
             if v.ty == 'MemberProp' and v.variant == 'Ident':
                 s = v.fields[0].get('sym')
                 conds.append(('a member property is an IdentifierName', ident_name_ok(ctx, s), {'key': s}))
